@@ -415,6 +415,21 @@ func (s *script) wait(ctx context.Context) (*Input, error) {
 
 type callKey struct{}
 
+// cancelsKey carries the list of cancel functions to call when the bubble ends.
+type cancelsKey struct{}
+
+// callerCtx gives the observed call its caller's deadline (Input.Deadline), counted from the instant
+// the call is made: a warm-up request served before it on the same instance is another caller's.
+func callerCtx(ctx context.Context, in *Input) context.Context {
+	cancels, ok := ctx.Value(cancelsKey{}).(*[]context.CancelFunc)
+	if !ok || in.Deadline <= 0 {
+		return ctx
+	}
+	cctx, cancel := context.WithDeadline(ctx, time.Now().Add(time.Duration(in.Deadline)))
+	*cancels = append(*cancels, cancel)
+	return cctx
+}
+
 func (s *script) wait1(ctx context.Context, in *Input) error {
 	p := in.Provs[s.idx]
 	if s.warm.Load() {
@@ -631,6 +646,7 @@ func newInvoker(ctx context.Context, in *Input, scripts []*script, ct *mocks.Cha
 			warmup(in, func() {
 				_, _ = svc.AttestationData(ctx, &api.AttestationDataOpts{Slot: phase0.Slot(in.Slot), CommitteeIndex: 3})
 			})
+			ctx = callerCtx(ctx, in)
 			r.start = time.Now()
 			resp, err := svc.AttestationData(ctx, &api.AttestationDataOpts{Slot: phase0.Slot(in.Slot), CommitteeIndex: 3})
 			if r.finish(err, err == nil && (resp == nil || resp.Data == nil)) {
@@ -657,6 +673,7 @@ func newInvoker(ctx context.Context, in *Input, scripts []*script, ct *mocks.Cha
 			warmup(in, func() {
 				_, _ = svc.AggregateAttestation(ctx, &api.AggregateAttestationOpts{Slot: phase0.Slot(in.Slot), AttestationDataRoot: rootOf(9)})
 			})
+			ctx = callerCtx(ctx, in)
 			r.start = time.Now()
 			resp, err := svc.AggregateAttestation(ctx, &api.AggregateAttestationOpts{Slot: phase0.Slot(in.Slot), AttestationDataRoot: rootOf(9)})
 			if r.finish(err, err == nil && (resp == nil || resp.Data == nil)) {
@@ -689,6 +706,7 @@ func newInvoker(ctx context.Context, in *Input, scripts []*script, ct *mocks.Cha
 			warmup(in, func() {
 				_, _ = svc.Proposal(ctx, &api.ProposalOpts{Slot: phase0.Slot(in.Slot), Graffiti: [32]byte{'v', 'o', 'u', 'c', 'h'}})
 			})
+			ctx = callerCtx(ctx, in)
 			r.start = time.Now()
 			resp, err := svc.Proposal(ctx, &api.ProposalOpts{Slot: phase0.Slot(in.Slot), Graffiti: [32]byte{'v', 'o', 'u', 'c', 'h'}})
 			if r.finish(err, err == nil && (resp == nil || resp.Data == nil)) {
@@ -721,6 +739,7 @@ func newInvoker(ctx context.Context, in *Input, scripts []*script, ct *mocks.Cha
 			warmup(in, func() {
 				_, _ = svc.SyncCommitteeContribution(ctx, &api.SyncCommitteeContributionOpts{Slot: phase0.Slot(in.Slot), SubcommitteeIndex: 1, BeaconBlockRoot: rootOf(77)})
 			})
+			ctx = callerCtx(ctx, in)
 			r.start = time.Now()
 			resp, err := svc.SyncCommitteeContribution(ctx, &api.SyncCommitteeContributionOpts{Slot: phase0.Slot(in.Slot), SubcommitteeIndex: 1, BeaconBlockRoot: rootOf(77)})
 			if r.finish(err, err == nil && (resp == nil || resp.Data == nil)) {
@@ -749,6 +768,7 @@ func newInvoker(ctx context.Context, in *Input, scripts []*script, ct *mocks.Cha
 		invoke = func(ctx context.Context, in *Input) Observed {
 			var r rec
 			warmup(in, func() { _, _ = svc.BeaconBlockRoot(ctx, &api.BeaconBlockRootOpts{Block: "head"}) })
+			ctx = callerCtx(ctx, in)
 			r.start = time.Now()
 			resp, err := svc.BeaconBlockRoot(ctx, &api.BeaconBlockRootOpts{Block: "head"})
 			if r.finish(err, err == nil && (resp == nil || resp.Data == nil)) {
@@ -772,6 +792,7 @@ func newInvoker(ctx context.Context, in *Input, scripts []*script, ct *mocks.Cha
 		invoke = func(ctx context.Context, in *Input) Observed {
 			var r rec
 			warmup(in, func() { _, _ = svc.BeaconBlockHeader(ctx, &api.BeaconBlockHeaderOpts{Block: "head"}) })
+			ctx = callerCtx(ctx, in)
 			r.start = time.Now()
 			resp, err := svc.BeaconBlockHeader(ctx, &api.BeaconBlockHeaderOpts{Block: "head"})
 			if r.finish(err, err == nil && (resp == nil || resp.Data == nil)) {
@@ -789,6 +810,7 @@ func newInvoker(ctx context.Context, in *Input, scripts []*script, ct *mocks.Cha
 		invoke = func(ctx context.Context, in *Input) Observed {
 			var r rec
 			warmup(in, func() { _, _ = svc.SignedBeaconBlock(ctx, &api.SignedBeaconBlockOpts{Block: "head"}) })
+			ctx = callerCtx(ctx, in)
 			r.start = time.Now()
 			resp, err := svc.SignedBeaconBlock(ctx, &api.SignedBeaconBlockOpts{Block: "head"})
 			if r.finish(err, err == nil && (resp == nil || resp.Data == nil)) {
@@ -885,10 +907,9 @@ func runCase(t *testing.T, in *Input) (all []Observed) {
 			ct.SetSlot(uint64(int64(c.Slot) + c.NowOff))
 			cctx := context.WithValue(ctx, callKey{}, int32(k))
 			if c.Deadline > 0 {
-				// the caller works to a deadline of its own (a duty's deadline, a request budget)
-				var cancel context.CancelFunc
-				cctx, cancel = context.WithDeadline(cctx, time.Now().Add(time.Duration(c.Deadline)))
-				cancels = append(cancels, cancel)
+				// the caller works to a deadline of its own (a duty's deadline, a request budget); it is
+				// set by callerCtx when the observed call is made, after any warm-up request
+				cctx = context.WithValue(cctx, cancelsKey{}, &cancels)
 				if d := time.Duration(c.Deadline); d > rest {
 					rest = d
 				}
